@@ -57,6 +57,9 @@ func NewTracer(ctx context.Context) ITracer {
 func (t *tracer) run(ctx context.Context) {
 	var termination sync.Once
 	defer close(t.done)
+	// once the context is done this case is served once: a done channel is always
+	// ready and the loop would spin until the last sender is gone
+	cancelled := ctx.Done()
 
 	for {
 		select {
@@ -86,7 +89,8 @@ func (t *tracer) run(ctx context.Context) {
 			for _, subscriber := range t.subscribers {
 				subscriber <- trace
 			}
-		case <-ctx.Done():
+		case <-cancelled:
+			cancelled = nil
 			// Start a termination waiting routine (only once)
 			termination.Do(func() {
 				go func() {
@@ -138,7 +142,13 @@ loop:
 }
 
 func (t *tracer) Send(trace ITrace) {
-	t.traces <- trace
+	// a trace sent after the tracer is done has nobody to go to; without this
+	// alternative its sender (a goroutine reporting its own cancellation, say)
+	// blocked for ever
+	select {
+	case t.traces <- trace:
+	case <-t.done:
+	}
 }
 
 func (t *tracer) RegisterSender() ISenderHandle {
